@@ -46,6 +46,13 @@ def _impl_one(args):
             ans, req = ans
             case["req"] = req
     except BaseException as e:  # the module maps expected exceptions itself
+        tb = traceback.extract_tb(e.__traceback__)
+        inner = tb[-1].filename if tb else ""
+        if inner.startswith(os.path.realpath(REPO)) or inner.startswith(REPO) or "site-packages" in inner:
+            # the exception was raised inside the implementation (or a library it calls) on an input the property
+            # module did not expect to fail: that is an outcome of the code under test, not a harness fault
+            ans = "unexpected-exc:" + type(e).__name__
+            return ans, [f"implementation raised unexpected {type(e).__name__}: {str(e)[:160]} (at {inner.split('/')[-1]}:{tb[-1].lineno})"], req
         ans = "harness-exc:" + type(e).__name__ + ":" + str(e)[:200] + traceback.format_exc()[-800:]
     try:
         fails = mod.oracle(case, ans)
@@ -146,7 +153,8 @@ class Check:
         workers = int(os.environ.get("VERIF_WORKERS", "0")) or min(16, os.cpu_count() or 1)
         if len(cases) >= 3000 and workers > 1 and not getattr(self.mod, "SERIAL", False):
             with multiprocessing.get_context("fork").Pool(workers) as pool:
-                return pool.map(_impl_one, args, chunksize=max(1, len(args) // (workers * 8)))
+                # contiguous chunks: cases a generator emits back to back run in the same process, in order
+                return pool.map(_impl_one, args, chunksize=max(2, len(args) // (workers * 8)))
         return [_impl_one(a) for a in args]
 
     # --------------------------------------------------------------- report
